@@ -399,6 +399,13 @@ def run(F, run, tier):
         run.obligations += len(r["transitions"])
         run.discharged += len(r["transitions"])
     fdjac.analyse(F, run, "C03", "R3.5", "bdf")
+    # R3.8 the implicit BDF equations are solved by the same Broyden iteration as roots::secant: its inverse-Jacobian update (rules/broyden.py)
+    from rules import broyden
+    try:
+        broyden.check(F, run, M.method_of(F, "ivp::bdf::BDFSolver<", None, "secant"), "R3.8", "BDFSolver::secant", 3 if tier == "thorough" else 2,
+                      ("jac_inv", "shift", "derivative", "guess"))
+    except Missing as e:
+        run.broken("R3.8", "BDFSolver::secant", "anchor", "src/ivp/bdf.rs", str(e))
     check_euler(F, run)
     # every impl of the three coefficient traits must be one of the analysed ones
     known = {v[0] for v in list(M.RK_IMPLS.values()) + list(M.ADAMS_IMPLS.values()) + list(M.BDF_IMPLS.values())}
